@@ -184,7 +184,7 @@ func init() {
 					}
 					f := Family{Name: ch + "/" + be,
 						Cfg:    &scn.Cfg{Chain: ch, SwapType: "out", AInitiates: true, ALnd: lnd, BLnd: !lnd, Flags: scn.Flags{Time: true, Restart: true, MaxTime: 1, Drop: false, Faults: []string{"store.update"}}},
-						Bounds: pick(tier, mc.Bounds{MaxDepth: 4, MaxDev: 2, Budget: 80 * time.Second, NoCrash: true}, mc.Bounds{MaxDepth: 6, MaxDev: 2, Budget: 10 * time.Minute, NoCrash: true})}
+						Bounds: pick(tier, mc.Bounds{MaxDepth: 5, MaxDev: 2, Budget: 80 * time.Second, NoCrash: true}, mc.Bounds{MaxDepth: 6, MaxDev: 2, Budget: 10 * time.Minute, NoCrash: true})}
 					f.Cfg.ExtraEnabled, f.Cfg.ExtraApply = c10Enabled, c10Apply
 					f.Cfg.ExtraKey = func(x *scn.Exec) string { n, _ := x.Ctx["c10n"].(int); return fmt.Sprintf("|c10n=%d", n) }
 					out = append(out, f)
